@@ -53,6 +53,7 @@ pub tracked struct QCtx {
     pub ghost nonblocking: bool,    // try_sync: no blocking primitive may be reached
     pub ghost unparked: bool,       // WakeThread: unpark() was called
     pub ghost ran: nat,             // number of times a job / closure was entered by this thread
+    pub ghost appends: nat,         // number of append sections performed by this thread
     pub ghost log: Seq<Sec>,
     pub ghost v_order: bool,        // every queue effect so far kept the FIFO discipline
     pub ghost v_conserve: bool,     // ... and neither lost nor duplicated a job
@@ -65,11 +66,19 @@ pub open spec fn valid(c: QCtx) -> bool { c.v_order && c.v_conserve && c.v_state
 /// the context of a thread that is not involved with the queue
 pub open spec fn fresh(c: QCtx) -> bool {
     !c.holds && !c.parked && c.current is None && !c.debt_idle && !c.debt_pending && !c.latching
-    && !c.unparked && c.ran == 0 && c.log.len() == 0 && valid(c)
+    && !c.unparked && c.ran == 0 && c.appends == 0 && c.log.len() == 0 && valid(c)
 }
 pub open spec fn log_extends(new: Seq<Sec>, old: Seq<Sec>) -> bool {
     old.len() <= new.len() && forall|i: int| 0 <= i < old.len() ==> new[i] == old[i]
 }
+/// frame: what every function under contract preserves of the caller's context
+pub open spec fn kept(n: QCtx, o: QCtx) -> bool {
+    n.nonblocking == o.nonblocking && n.latching == o.latching && log_extends(n.log, o.log)
+    && n.appends >= o.appends && n.ran >= o.ran
+}
+pub open spec fn kept_counts(n: QCtx, o: QCtx) -> bool { kept(n, o) && n.appends == o.appends && n.ran == o.ran && n.unparked == o.unparked }
+/// a thread that neither owns the queue nor owes it anything
+pub open spec fn outsider(c: QCtx) -> bool { !c.holds && !c.parked && c.current is None && paid(c) && valid(c) && !c.latching }
 pub open spec fn paid(c: QCtx) -> bool { !c.debt_idle && !c.debt_pending }
 
 pub open spec fn is_append(a: Seq<BoxedJob>, b: Seq<BoxedJob>) -> bool { b.len() == a.len() + 1 && b.drop_last() =~= a }
@@ -120,11 +129,15 @@ pub open spec fn step(c: QCtx, a: JobQueueCore, b: JobQueueCore) -> QCtx {
     let s = a.state; let t = b.state;
     let alen = a.queue@.len(); let blen = b.queue@.len();
     let was_idle_nonempty = s is Idle && alen > 0;
+    // a holder putting its popped job back (push_front) into an empty queue is not an append
+    let put_back = c.holds && c.current is Some && is_push_front(a.queue@, b.queue@, c.current->0);
+    let appended_now = !put_back && is_append(a.queue@, b.queue@);
     QCtx {
         debt_idle: t is Idle && blen > 0 && ((c.debt_idle && was_idle_nonempty) || !was_idle_nonempty),
         debt_pending: c.debt_pending || (s is Idle && t is Pending),
+        appends: if appended_now { c.appends + 1 } else { c.appends },
         log: c.log.push(Sec { a: s, b: t, alen: alen, blen: blen, qsame: a.queue@ =~= b.queue@,
-            appended: if is_append(a.queue@, b.queue@) { Some(b.queue@.last()) } else { None } }),
+            appended: if appended_now { Some(b.queue@.last()) } else { None } }),
         ..c1
     }
 }
@@ -167,6 +180,35 @@ impl Mutex<Schedule> {
         ensures
             r is Ok,
             final(ctx).appended == old(ctx).appended + (if final(r->Ok_0)@.len() == (r->Ok_0)@.len() + 1 && final(r->Ok_0)@.drop_last() =~= (r->Ok_0)@ { 1nat } else { 0nat }),
+    { unimplemented!() }
+}
+
+// ------------------------------------------------------------------ result / flag cells
+/// monotone cell protocol: once this thread has seen the cell set, it stays set until this thread clears it
+pub tracked struct FlagCtx { pub ghost seen: bool }
+
+impl<T> Mutex<Option<T>> {
+    /// what values the cell may hold (fixed when the writer closure is built)
+    pub uninterp spec fn holds(&self, v: T) -> bool;
+
+    #[verifier::external_body]
+    pub fn lock<'a>(&'a self, Tracked(ctx): Tracked<&'a mut FlagCtx>) -> (r: LockResult<&'a mut Option<T>>)
+        ensures
+            r is Ok,
+            old(ctx).seen ==> (*(r->Ok_0)) is Some,
+            (*(r->Ok_0)) matches Some(v) ==> self.holds(v),
+            final(ctx).seen == (*final(r->Ok_0)) is Some,
+    { unimplemented!() }
+}
+
+impl<T> Mutex<T> {
+    #[verifier::external_body]
+    pub fn new(v: T) -> (r: Self) { unimplemented!() }
+}
+impl Mutex<bool> {
+    #[verifier::external_body]
+    pub fn lock<'a>(&'a self) -> (r: LockResult<&'a mut bool>)
+        ensures r is Ok,
     { unimplemented!() }
 }
 
